@@ -48,9 +48,9 @@ def gen_instances(rng, decls):
         if d.typ != 'sec':
             continue
         if d.is_multi:
-            cnt = rng.choice([0, 1, 2, 2, 3])
+            cnt = rng.choice([0, 1, 2, 2, 3]) if rng.random() < 0.95 else 12      # (two-digit indices)
             if d.flags & F_TITLE:
-                titles = rng.sample(TITLES, cnt)
+                titles = rng.sample(TITLES, cnt) if cnt <= len(TITLES) else ['t%d' % k for k in range(cnt)]
             else:
                 titles = [None] * cnt
         else:
